@@ -537,9 +537,7 @@ func (la *lockAnalysis) entryFor(fn *ssa.Function) Set {
 						}
 					}
 					key := h.Key
-					for from, to := range sub {
-						key = strings.ReplaceAll(key, from, to)
-					}
+					key = applySubst(key, sub)
 					one["L|"+h.Class+"|"+h.Mode+"|"+renameIdents(key, ren)+"|entry"] = true
 				}
 				if out == nil {
@@ -561,9 +559,7 @@ func (la *lockAnalysis) entryFor(fn *ssa.Function) Set {
 						continue
 					}
 					key := h.Key
-					for from, to := range sub {
-						key = strings.ReplaceAll(key, from, to)
-					}
+					key = applySubst(key, sub)
 					one["L|"+h.Class+"|"+h.Mode+"|"+renameIdents(key, ren)+"|entry"] = true
 				}
 				if out == nil {
